@@ -34,6 +34,7 @@ open ZodbModel ZodbModel.Resolve ZodbModel.StoreRules
 
 inductive Beh where
   | value (seed : Nat) | exc | conflict | counter
+  | moody (seed : Nat)       -- raises (AttributeError) when the wanted state is the atom 13, else merges
 
 structure ClassDef where
   cid : Nat
@@ -56,6 +57,10 @@ def envOf (cs : List ClassDef) : Env :=
       | some d =>
         match d.beh with
         | .value seed => .ok (.pair (.atom seed) (.pair o (.pair cm n)))
+        | .moody seed =>
+          (match n with
+           | .atom 13 => .error (.other 3)
+           | _ => .ok (.pair (.atom seed) (.pair o (.pair cm n))))
         | .exc => .error (.other 1)
         | .conflict => .error .conflict
         | .counter =>
@@ -206,6 +211,7 @@ def parseBeh (s : String) : Option Beh :=
   | ['c'] => some .conflict
   | ['k'] => some .counter
   | 'v' :: rest => (parseNat rest).map fun (n, _) => .value n
+  | 'm' :: rest => (parseNat rest).map fun (n, _) => .moody n
   | _ => none
 
 def outStr (o : Out) (calls : List Call) : String :=
@@ -353,6 +359,42 @@ def srStep (d : DState) (toks : List String) : DState × String :=
           ({ d with sys := { d.sys with cache := r.cache, hist := t :: d.sys.hist } }, "ok none")
         | .undoError =>
           ({ d with sys := { d.sys with cache := r.cache } }, "err:Undo" ++ callsStr r.call.toList)
+    | _, _, _ => (d, "bad-op")
+  | "undomulti" :: tid :: oid :: undones =>
+    -- several `undo` calls in ONE transaction on the same object (DB.undoMultiple): every later call
+    -- sees what the earlier one staged as the current revision (tid = the transaction's own tid)
+    match tid.toNat?, oid.toNat?, undones.mapM String.toNat? with
+    | some tid, some oid, some us =>
+      if d.sys.lock.isSome then (d, "blocked")
+      else
+        let ct0 := (curK d.sys.kind d.sys.hist d.sys.base oid).getD 0
+        let rec go (us : List Nat) (hist : Hist) (cache : List Nat) (calls : List Call)
+            (last : Option (Record × Bool)) : Option (Record × Bool) × List Nat × List Call × Bool :=
+          match us with
+          | [] => (last, cache, calls, true)
+          | u :: rest =>
+            let r := undoRecord (envOf d.classes) d.sys.kind hist d.sys.base cache oid u
+            let stage (rec : Record) (res : Bool) :=
+              let t : Txn := { tid := tid, recs := [{ oid := oid, base := ct0, data := rec, wanted := rec,
+                                                       resolved := res }], checked := [] }
+              -- the staged record replaces an earlier staged one of the same transaction
+              let hist' := match hist with
+                           | t0 :: older => if t0.tid = tid then t :: older else t :: hist
+                           | [] => [t]
+              go rest hist' r.cache (calls ++ r.call.toList) (some (rec, res))
+            match r.out with
+            | .copy rec => stage rec false
+            | .merged rec => stage rec true
+            | .uncreate => (none, r.cache, calls ++ r.call.toList, false)
+            | .undoError => (none, r.cache, calls ++ r.call.toList, false)
+        let (last, cache, calls, ok) := go us d.sys.hist d.sys.cache [] none
+        match ok, last with
+        | true, some (rec, res) =>
+          let t : Txn := { tid := tid, recs := [{ oid := oid, base := ct0, data := rec, wanted := rec,
+                                                   resolved := res }], checked := [] }
+          ({ d with sys := { d.sys with cache := cache, hist := t :: d.sys.hist } },
+           "ok " ++ recStr rec ++ callsStr calls)
+        | _, _ => ({ d with sys := { d.sys with cache := cache } }, "err:Undo" ++ callsStr calls)
     | _, _, _ => (d, "bad-op")
   | _ => (d, "bad-op")
 
